@@ -252,6 +252,17 @@ def eliminate_qualify(expression: exp.Expr) -> exp.Expr:
                     qualify_filters = column
                 else:
                     select_candidate.replace(column)
+            elif select_candidate.table and not select_candidate.find_ancestor(exp.Window):
+                # The source's alias isn't visible outside of the subquery, so a qualified
+                # column is projected under a new name and referenced through that name
+                alias = find_new_name(expression.named_selects, "_c")
+                expression.select(exp.alias_(select_candidate.copy(), alias), copy=False)
+                column = exp.column(alias)
+
+                if select_candidate is qualify_filters:
+                    qualify_filters = column
+                else:
+                    select_candidate.replace(column)
             elif select_candidate.name not in expression.named_selects:
                 expression.select(select_candidate.copy(), copy=False)
 
